@@ -289,6 +289,7 @@ pub fn run(ctx: &mut Ctx) {
             heartbeat: 100,
             social_stake: 0,
             loading_completed,
+            prune: 2,
         };
         for n in 2..=n_max {
             let perms = all_permutations(n);
